@@ -7,9 +7,11 @@ class C18(Prop):
     id = "C18"
     title = "Configuration file and command line reach the procedures unchanged"
     lean_module = "Stgutg.Props.C18"
-    extra_modules = ["Stgutg.Props.C01Transport", "Stgutg.Proofs.GenTieMin"]
-    gen = ["wiring", "transport", "pure-min"]
-    theorems = ["Stgutg.Props.C01Transport." + t for t in [
+    extra_modules = ["Stgutg.Props.Glue.stgutg_GetMode", "Stgutg.Props.Glue.stgutg_ManageError", "Stgutg.Props.Glue.stgutg_Min", "Stgutg.Props.C01Transport", "Stgutg.Proofs.GenTieMin"]
+    gen = ["wiring", "transport", "pure-min", "procs"]
+    theorems = ["Stgutg.Props.GluePinned." + t for t in [
+        # the glue functions this property depends on are still the text the models were written from (gen procs)
+        "stgutg_GetMode", "stgutg_ManageError", "stgutg_Min"]] + ["Stgutg.Props.C01Transport." + t for t in [
         # the two addresses and two ports, once received by ConnectToAmf, reach sctp.DialSCTP as remote / local endpoint unchanged
         # (the resolved address is appended as it is: `*ip`, zone included)
         "C01_transport_facts", "C01_transport_endpoints"]] + [
